@@ -77,6 +77,7 @@ CHECKS["C11"] = {
         _sub("TestC11_Versions", 2000, 60000, sq=10, st=10),
         _sub("TestC11_UnderFaults", 300, 12000, sq=5, st=5),
         _sub("TestC11_KVCutoff", 2000, 80000, sq=1, st=2),
+        _sub("TestC11_KVHandles", 2000, 80000, sq=2, st=4),
     ],
 }
 CHECKS["C12"] = {
@@ -157,6 +158,7 @@ CHECKS["C19"] = {
         # one case per process, several processes one after another per shard
         _sub("TestC19_FirstUse", 8, 8, sq=6, st=6, waves={"quick": 4, "thorough": 80}),
         _sub("TestC19_Sequential", 400, 16000, sq=2, st=2),
+        _sub("TestC19_SharedHistory", 600, 24000, sq=6, st=6),
     ],
     "watchdog": {"quick": 900, "thorough": 7200},
 }
